@@ -624,7 +624,11 @@ func checkC06(c *Ctx, k KCase) *Verdict {
 			if ex.ErrKind == "provider" {
 				site = "error of a provider that did not fail"
 			}
-			return o.failf(v, ex, "error-substituted:"+ex.ErrKind, site, "provider(s) %v failed but the injector returned %q (%s), which no invoked provider returned; the caller's context was not cancelled", keysInt(failed), ex.ErrText, ex.ErrKind)
+			o.failf(v, ex, "error-substituted:"+ex.ErrKind, site, "provider(s) %v failed but the injector returned %q (%s), which no invoked provider returned; the caller's context was not cancelled", keysInt(failed), ex.ErrText, ex.ErrKind)
+			if c.absorbKnown(v) {
+				continue
+			}
+			return v
 		}
 		// no downstream provider entered
 		for f := range failed {
@@ -714,11 +718,27 @@ func checkC07(c *Ctx, k KCase) *Verdict {
 			if !ex.HasErr {
 				kind = "hang-on-cancel:no-error-result"
 			}
-			return o.failf(v, ex, kind, site, "context cancelled (%s) and every provider returned, but the injector never returns", ex.CancelCtx)
+			o.failf(v, ex, kind, site, "context cancelled (%s) and every provider returned, but the injector never returns", ex.CancelCtx)
+			if c.absorbKnown(v) {
+				continue
+			}
+			return v
 		}
 		if ex.ErrNil || !ex.HasErr {
 			if ex.Result != ir.ref.Value {
-				return o.failf(v, ex, "partial-result", "nil error with wrong value", "injector reported no error but returned value hash %d instead of the completely constructed %d", ex.Result, ir.ref.Value)
+				kind := "partial-result"
+				if !ex.HasErr {
+					kind = "partial-result:no-error-result"
+				}
+				site := "result computed on the main thread"
+				if fn := o.b.An.Funcs[ex.Inj]; fn != nil && resultAssignedInGoroutine(fn.Decl) {
+					site = "result computed in a goroutine; eg.Wait() error ignored"
+				}
+				o.failf(v, ex, kind, site, "injector reported no error but returned value hash %d instead of the completely constructed %d", ex.Result, ir.ref.Value)
+				if c.absorbKnown(v) {
+					continue
+				}
+				return v
 			}
 		}
 	}
@@ -772,7 +792,11 @@ func checkC08(c *Ctx, k KCase) *Verdict {
 			default:
 				kind += ":after-" + ex.ErrKind
 			}
-			return o.failf(v, ex, kind, site, "after the injector returned (%s) and every provider was released, goroutines it started remain blocked forever: %v", ex.ErrKind, ex.Blocked)
+			o.failf(v, ex, kind, site, "after the injector returned (%s) and every provider was released, goroutines it started remain blocked forever: %v", ex.ErrKind, ex.Blocked)
+			if c.absorbKnown(v) {
+				continue
+			}
+			return v
 		}
 	}
 	v.Sample = describeCase(o.b)
